@@ -642,5 +642,6 @@ func isIndexSearch(cl *ssa.Call) bool {
 	case "bytes.IndexByte", "strings.IndexByte", "bytes.IndexRune", "strings.IndexRune":
 		return true
 	}
-	return g.Pkg != nil && g.Pkg.Pkg.Path() == "slices" && strings.HasPrefix(g.Name(), "Index")
+	// (an instance of a generic function has no package of its own)
+	return pkgPathOf(g) == "slices" && strings.HasPrefix(g.Name(), "Index")
 }
